@@ -20,7 +20,9 @@ import (
 	"fmt"
 	"sort"
 	"strings"
+	"sync/atomic"
 	"testing"
+	"time"
 
 	"github.com/ethereum/go-ethereum/common"
 	"github.com/ethereum/go-ethereum/core/rawdb"
@@ -243,6 +245,11 @@ type c17Cfg struct {
 	Hist   uint64 `json:"hist"`     // StateHistory limit, 0 = everything
 	Buffer int    `json:"buffer"`   // WriteBufferSize
 	Trie   int64  `json:"trienode"` // TrienodeHistory: -1 off, otherwise limit
+	// Async: NoAsyncFlush=false (production default). Buffer flushes run in the package's background goroutine and
+	// the flushed content stays linked to the disk layer as the frozen buffer. The harness waits for the flush through
+	// the package's own notification (diskLayer.waitFlush -> buffer.done) after every operation; the flush of the last
+	// operation is additionally held at a gate in front of the key-value batch write for one observation.
+	Async  bool   `json:"async,omitempty"`
 	Index  bool   `json:"index,omitempty"` // history indexing enabled (used by the C18 harness)
 	// RealIniter: start the indexers through Config.EnableStateIndexing (background initer goroutine). Otherwise the
 	// indexers are attached in the "initial indexing finished" state: the genuine start-up races its first heartbeat
@@ -250,11 +257,48 @@ type c17Cfg struct {
 	RealIniter bool `json:"real_initer,omitempty"`
 }
 
+// c17Gate parks the first key-value batch write after it has been armed (the background flush of buffer.flush).
+type c17Gate struct {
+	armed    atomic.Bool
+	timedOut atomic.Bool
+	arrived  chan struct{}
+	hold     chan struct{}
+}
+
+type c17GateDB struct {
+	ethdb.Database
+	g *c17Gate
+}
+
+func (d *c17GateDB) NewBatch() ethdb.Batch { return &c17GateBatch{d.Database.NewBatch(), d.g} }
+func (d *c17GateDB) NewBatchWithSize(n int) ethdb.Batch {
+	return &c17GateBatch{d.Database.NewBatchWithSize(n), d.g}
+}
+
+type c17GateBatch struct {
+	ethdb.Batch
+	g *c17Gate
+}
+
+func (b *c17GateBatch) Write() error {
+	if b.g.armed.CompareAndSwap(true, false) {
+		b.g.arrived <- struct{}{}
+		select {
+		case <-b.g.hold:
+		case <-time.After(60 * time.Second): // watchdog against a harness hang only; reported as harness error
+			b.g.timedOut.Store(true)
+		}
+	}
+	return b.Batch.Write()
+}
+
 type c17Inst struct {
 	cfg    c17Cfg
+	gate   *c17Gate
 	kv     *memorydb.Database
 	disk   ethdb.Database
 	db     *Database
+	parking bool
 	roots  []common.Hash // roots[i] = root with state id i (roots[0] = empty root)
 	worlds []c17World
 }
@@ -265,6 +309,11 @@ func c17NewInst(cfg c17Cfg) *c17Inst {
 	if err != nil {
 		panic(err)
 	}
+	var gate *c17Gate
+	if cfg.Async {
+		gate = &c17Gate{arrived: make(chan struct{}, 1), hold: make(chan struct{})}
+		disk = &c17GateDB{disk, gate}
+	}
 	db := New(disk, &Config{
 		StateHistory:        cfg.Hist,
 		TrienodeHistory:     cfg.Trie,
@@ -272,7 +321,7 @@ func c17NewInst(cfg c17Cfg) *c17Inst {
 		TrieCleanSize:       c17CacheSize,
 		StateCleanSize:      c17CacheSize,
 		WriteBufferSize:     cfg.Buffer,
-		NoAsyncFlush:        true,
+		NoAsyncFlush:        !cfg.Async,
 		NoAsyncGeneration:   true,
 		EnableStateIndexing: cfg.Index && cfg.RealIniter,
 		NoHistoryIndexDelay: true,
@@ -283,10 +332,13 @@ func c17NewInst(cfg c17Cfg) *c17Inst {
 			db.trienodeIndexer = c17AttachIndexer(disk, db.trienodeFreezer, typeTrienodeHistory)
 		}
 	}
-	return &c17Inst{cfg: cfg, kv: kv, disk: disk, db: db, roots: []common.Hash{types.EmptyRootHash}, worlds: []c17World{{}}}
+	return &c17Inst{cfg: cfg, gate: gate, kv: kv, disk: disk, db: db, roots: []common.Hash{types.EmptyRootHash}, worlds: []c17World{{}}}
 }
 
 func (in *c17Inst) close() {
+	if in.gate != nil {
+		in.gate.armed.Store(false)
+	}
 	in.db.Close()
 	in.disk.Close()
 }
@@ -302,6 +354,9 @@ func (in *c17Inst) run(ops []string) (bool, error) {
 			if err := in.db.Commit(head, false); err != nil {
 				return true, fmt.Errorf("Commit: %v", err)
 			}
+			if err := in.settle(); err != nil {
+				return true, fmt.Errorf("background flush after Commit: %v", err)
+			}
 			continue
 		}
 		prev := in.worlds[len(in.worlds)-1]
@@ -315,8 +370,59 @@ func (in *c17Inst) run(ops []string) (bool, error) {
 		}
 		in.roots = append(in.roots, root)
 		in.worlds = append(in.worlds, next)
+		if err := in.settle(); err != nil {
+			return true, fmt.Errorf("background flush after Update(%s): %v", op, err)
+		}
 	}
 	return true, nil
+}
+
+// settle waits, in the asynchronous configurations, until the background flush scheduled by the last operation has
+// finished (package notification buffer.done). Not done while a flush is deliberately parked at the gate.
+func (in *c17Inst) settle() error {
+	if !in.cfg.Async || in.parking {
+		return nil
+	}
+	return in.db.tree.bottom().waitFlush()
+}
+
+// runParked executes a history like run, but holds the background flush of the LAST operation (if it schedules one)
+// in front of its key-value batch write, calls observe while the frozen buffer is linked and its content is not yet on
+// disk, then releases the flush and waits for it.
+func (in *c17Inst) runParked(ops []string, observe func(parked bool) error) (bool, error) {
+	if ok, err := in.run(ops[:len(ops)-1]); err != nil || !ok {
+		return ok, err
+	}
+	in.parking = true
+	in.gate.armed.Store(true)
+	ok, err := in.run(ops[len(ops)-1:])
+	in.parking = false
+	parked := false
+	if err == nil && ok {
+		if fr := in.db.tree.bottom().frozen; fr != nil && fr.done != nil {
+			select {
+			case <-in.gate.arrived:
+				parked = true
+			case <-fr.done: // an older, already finished flush: the last operation did not flush
+			}
+		}
+	}
+	in.gate.armed.Store(false)
+	var oerr error
+	if err == nil && ok {
+		oerr = observe(parked)
+	}
+	close(in.gate.hold)
+	if werr := in.db.tree.bottom().waitFlush(); werr != nil && err == nil {
+		err = fmt.Errorf("background flush: %v", werr)
+	}
+	if in.gate.timedOut.Load() && err == nil {
+		err = errors.New("harness: the parked flush was not released within 60 s")
+	}
+	if err == nil {
+		err = oerr
+	}
+	return ok, err
 }
 
 // ---------------------------------------------------------------------------------------------------------------
@@ -569,7 +675,36 @@ func c17Freezers(in *c17Inst) []ethdb.AncientStore {
 func c17Check(r *mc.R, c c17Case) error {
 	in := c17NewInst(c.Cfg)
 	defer func() { in.close() }()
-	if ok, err := in.run(c.Ops); err != nil || !ok {
+	var (
+		ok  bool
+		err error
+	)
+	if c.Cfg.Async {
+		ok, err = in.runParked(c.Ops, func(parked bool) error {
+			// observation while the flush is parked: the frozen buffer is linked, its content is not on disk yet
+			if !parked {
+				r.Outcome("async:last-op-did-not-flush")
+				return nil
+			}
+			r.Outcome("async:observed-with-parked-flush")
+			dl := in.db.tree.bottom()
+			if err := c17VerifyWorld(in, in.roots[len(in.roots)-1], in.worlds[len(in.worlds)-1], false); err != nil {
+				return fmt.Errorf("head state while the flush is parked: %v", err)
+			}
+			if err := c17VerifyWorld(in, dl.rootHash(), in.worlds[dl.stateID()], false); err != nil {
+				return fmt.Errorf("disk layer state %d while its flush is parked: %v", dl.stateID(), err)
+			}
+			for i, root := range in.roots {
+				if rec := in.db.Recoverable(root); rec && uint64(i) >= dl.stateID() {
+					return fmt.Errorf("Recoverable(state %d)=true while the flush is parked and the disk layer is at %d", i, dl.stateID())
+				}
+			}
+			return nil
+		})
+	} else {
+		ok, err = in.run(c.Ops)
+	}
+	if err != nil || !ok {
 		if !ok {
 			return errors.New("harness: history contains a disabled delta")
 		}
@@ -642,6 +777,13 @@ func c17Check(r *mc.R, c c17Case) error {
 
 func c17RecoverAndVerify(r *mc.R, in *c17Inst, root common.Hash, id int, ops []string, fork bool) error {
 	bufBefore := in.db.tree.bottom().buffer.layers
+	if in.db.tree.bottom().frozen != nil {
+		if bufBefore == 0 {
+			r.Outcome("rollback:below-a-flushed-frozen-buffer")
+		} else {
+			r.Outcome("rollback:frozen-buffer-linked")
+		}
+	}
 	if err := in.db.Recover(root); err != nil {
 		return fmt.Errorf("failed: %v", err)
 	}
@@ -815,14 +957,16 @@ func TestVerif_C17(t *testing.T) {
 		maxCommits := mc.Pick(r, 1, 2)
 		r.Rule("all canonical histories of 1..L state transitions over the delta alphabet {create/modify A, A.slot0:=1|2|absent, A.slot1:=1, destruct A, " +
 			"destruct-and-recreate A, create/modify B, B.slot0:=1, destruct B} (only enabled deltas; a sender account's nonce changes in every transition), " +
-			"with Commit (flatten+flush) inserted at every position, x configurations {history limit 0|2} x {write buffer 0|1MB} x {trienode history off|on}, " +
+			"with Commit (flatten+flush) inserted at every position, x configurations {history limit 0|2} x {write buffer 0|1MB} x {trienode history off|on} x " +
+			"{synchronous flush | asynchronous flush: awaited through buffer.done after every operation, the frozen buffer stays linked; the flush of the last operation is " +
+			"first parked in front of its batch write for one observation of head/disk-layer reads and Recoverable}, " +
 			"maxDiffLayers=1; after each history every root ever created + 2 unknown roots is classified by Recoverable; each recoverable root is rolled back to " +
 			"on a freshly replayed instance (then the chain is re-extended with a different 2-transition fork, the abandoned roots must be refused, and the fork point is rolled back to again), " +
-			"each other root must be refused without any change; quick tier: 4 of the 8 configurations (pairwise covering)")
+			"each other root must be refused without any change; quick tier: 4 of the 8 (hist,buffer,trienode) combinations (pairwise covering), each sync and async")
 		r.Bound("max_transitions", maxLen)
 		r.Bound("max_commits", maxCommits)
 		r.Assume("reference = generator-side world structs (root -> accounts, slots); trie package and rawdb key schema are the trusted base; " +
-			"in-memory freezers (rawdb.Open with empty ancient dir), synchronous flushing and generation")
+			"in-memory freezers (rawdb.Open with empty ancient dir), synchronous generation; asynchronous flushes are awaited through the package's notification or held at a deterministic gate")
 		r.Assume("liveness demanded: a root with id i below the disk layer d is recoverable when the history limit is 0 or i+limit >= d")
 		hists := c17Histories(maxLen, maxCommits)
 		r.Bound("histories", len(hists))
@@ -834,7 +978,7 @@ func TestVerif_C17(t *testing.T) {
 					if r.Quick() && (hist == 2) != ((buf == 0) != (tn == 0)) {
 						continue
 					}
-					cfgs = append(cfgs, c17Cfg{Hist: hist, Buffer: buf, Trie: tn})
+					cfgs = append(cfgs, c17Cfg{Hist: hist, Buffer: buf, Trie: tn}, c17Cfg{Hist: hist, Buffer: buf, Trie: tn, Async: true})
 				}
 			}
 		}
